@@ -754,6 +754,51 @@ fn random_value(seed: u64) -> Value {
 	x
 }
 
+/// values at the edges of the count widths: u1 counts of 255, u2 counts and lengths above 255 (both bytes used) and of
+/// 65535, u4 lengths above 65535
+fn boundary_values() -> Vec<Value> {
+	let utf = |s: &str| json!({"k": "Utf8", "bytes": s.as_bytes()});
+	let class = |pool: Vec<Value>, interfaces: Vec<u16>, methods: Vec<Value>, attributes: Vec<Value>| json!({
+		"minor_version": 0, "major_version": 65, "constant_pool": pool, "access_flags": 0x21, "this_class": 2, "super_class": 0,
+		"interfaces": interfaces, "fields": [], "methods": methods, "attributes": attributes});
+	let method = |attrs: Vec<Value>| json!({"access_flags": 1, "name_index": 1, "descriptor_index": 1, "attributes": attrs});
+	let mut out = Vec::new();
+	// byte runs: Utf8 of 65535 bytes, code of 66000 bytes, debug extension of 70000 bytes; 300 interfaces; 255 parameters
+	out.push(class(
+		vec![utf("A"), json!({"k": "Class", "name_index": 1}), utf("SourceDebugExtension"), json!({"k": "Utf8", "bytes": vec![65u8; 65535]}),
+			utf("RuntimeVisibleParameterAnnotations"), utf("Code")],
+		(0..300).collect(),
+		vec![method(vec![
+			json!({"k": "RuntimeVisibleParameterAnnotations", "attribute_name_index": 5, "parameter_annotations": (0..255).map(|_| json!({"annotations": []})).collect::<Vec<_>>()}),
+			json!({"k": "Code", "attribute_name_index": 6, "max_stack": 65535, "max_locals": 65535, "code": (0..66000u32).map(|i| (i % 251) as u8).collect::<Vec<_>>(), "exception_table": [], "attributes": []}),
+		])],
+		vec![json!({"k": "SourceDebugExtension", "attribute_name_index": 3, "debug_extension": (0..70000u32).map(|i| (i * 7 % 256) as u8).collect::<Vec<_>>()})],
+	));
+	// tables of 255 / 256 / 300 rows, Utf8 of 255 and 256 bytes
+	out.push(class(
+		vec![utf("A"), json!({"k": "Class", "name_index": 1}), utf("Exceptions"), utf("InnerClasses"), utf("LineNumberTable"), utf("Code"),
+			json!({"k": "Utf8", "bytes": vec![97u8; 255]}), json!({"k": "Utf8", "bytes": vec![98u8; 256]}), utf("RuntimeInvisibleParameterAnnotations"),
+			utf("PermittedSubclasses"), utf("BootstrapMethods")],
+		vec![],
+		vec![method(vec![
+			json!({"k": "Exceptions", "attribute_name_index": 3, "exception_index_table": (0..256).collect::<Vec<u16>>()}),
+			json!({"k": "RuntimeInvisibleParameterAnnotations", "attribute_name_index": 9, "parameter_annotations": (0..255).map(|i| json!({"annotations": if i == 254 { json!([{"type_index": 7, "element_value_pairs": []}]) } else { json!([]) }})).collect::<Vec<_>>()}),
+			json!({"k": "Code", "attribute_name_index": 6, "max_stack": 0, "max_locals": 0, "code": [177],
+				"exception_table": (0..257).map(|i| json!({"start_pc": i, "end_pc": 65535, "handler_pc": 256, "catch_type": 0})).collect::<Vec<_>>(),
+				"attributes": [{"k": "LineNumberTable", "attribute_name_index": 5, "line_number_table": (0..300).map(|i| json!({"start_pc": i, "line_number": 65535 - i})).collect::<Vec<_>>()}]}),
+		])],
+		vec![json!({"k": "InnerClasses", "attribute_name_index": 4, "classes": (0..256).map(|i| json!({"inner_class_info_index": i, "outer_class_info_index": 0, "inner_name_index": 65535, "inner_class_access_flags": 0x7fff})).collect::<Vec<_>>()}),
+			json!({"k": "PermittedSubclasses", "attribute_name_index": 10, "classes": (0..300).collect::<Vec<u16>>()}),
+			json!({"k": "BootstrapMethods", "attribute_name_index": 11, "bootstrap_methods": (0..256).map(|i| json!({"bootstrap_method_ref": i, "bootstrap_arguments": if i == 0 { (0..256).collect::<Vec<u16>>() } else { vec![] }})).collect::<Vec<_>>()})],
+	));
+	// 300 constants, the last ones named; 300 fields-worth of attributes at the class
+	let mut pool = vec![utf("A"), json!({"k": "Class", "name_index": 1})];
+	for i in 0..300u32 { pool.push(json!({"k": "Integer", "bytes": [i, 65535 - i]})); }
+	pool.push(utf("Deprecated"));
+	out.push(class(pool, vec![], vec![], (0..300).map(|_| json!({"k": "Deprecated", "attribute_name_index": 303})).collect()));
+	out
+}
+
 pub fn gen(seed: u64, n: usize) -> Result<Vec<Value>> {
 	let thorough = n >= 1500;
 	let mut rnd = StdRng::seed_from_u64(seed ^ 0xC20);
@@ -778,6 +823,7 @@ pub fn gen(seed: u64, n: usize) -> Result<Vec<Value>> {
 	}
 	for id in ids { out.push(json!({"op": "bytes", "id": format!("corpus:{id}")})); }
 	// raw values
+	for x in boundary_values() { out.push(json!({"op": "value", "wf": false, "x": x})); }
 	let values = n.saturating_sub(out.len()).max(200);
 	for i in 0..values {
 		out.push(json!({"op": "value", "wf": false, "x": random_value(seed.wrapping_mul(1_000_003).wrapping_add(i as u64))}));
